@@ -78,6 +78,9 @@ func (x *Exec) callsiteAsserts(fr *Frame, st *State, c *ssa.CallCommon, site *ss
 		name = contractKey(callee)
 	} else if c.IsInvoke() {
 		name = c.Method.Name()
+	} else if n := dynCallFieldName(c.Value); n != "" {
+		// a call through a function-typed struct field (op.opfunc(...)) is named by the field
+		name = n
 	}
 	if name == "" {
 		return
@@ -224,4 +227,23 @@ func isCapturedCell(parent *ssa.Function, fv *ssa.FreeVar) bool {
 		}
 	}
 	return false
+}
+
+// dynCallFieldName: for a call whose function value is loaded from a struct field, the field's name.
+func dynCallFieldName(v ssa.Value) string {
+	switch u := v.(type) {
+	case *ssa.UnOp:
+		if fa, ok := u.X.(*ssa.FieldAddr); ok {
+			if pt, ok := fa.X.Type().Underlying().(*types.Pointer); ok {
+				if st, ok := pt.Elem().Underlying().(*types.Struct); ok {
+					return st.Field(fa.Field).Name()
+				}
+			}
+		}
+	case *ssa.Field:
+		if st, ok := u.X.Type().Underlying().(*types.Struct); ok {
+			return st.Field(u.Field).Name()
+		}
+	}
+	return ""
 }
